@@ -12,6 +12,8 @@ CONSTANTS
   MaxOps = 3
   MaxFaults = 0
   MaxData = 1
+  MaxLate = 0
+  TocAlts = {}
   IdMod = 255
   Bugs = {"period_le_255"}
   WithSync = FALSE
